@@ -181,5 +181,6 @@ func (b *Bounds) Simplify(tolerance float64) Geom {
 }
 
 func (b *Bounds) Centroid() Point {
-	return Point{(b.Min.X + b.Max.X) / 2, (b.Min.Y + b.Max.Y) / 2}
+	// (halving first: the sum of two finite coordinates need not be finite)
+	return Point{b.Min.X/2 + b.Max.X/2, b.Min.Y/2 + b.Max.Y/2}
 }
